@@ -545,6 +545,12 @@ func pattern(id uint32, gen int) []byte {
 	return p
 }
 
+// compactBatch is the compactor's batch size for the sequence being run (how many free slots it
+// asks the arena for at once: larger or smaller than the free list).
+var compactBatch = 10
+
+var arenaDebug bool
+
 func runArena(seq []aop) (problem string) {
 	defer func() {
 		if r := recover(); r != nil {
@@ -561,7 +567,7 @@ func runArena(seq []aop) (problem string) {
 		return err.Error()
 	}
 	newCompactor := func() *mmap.AsyncCompactor {
-		ac := mmap.NewAsyncCompactor(va, mmap.ArenaCompactionConfig{Enabled: true, Threshold: 0.01, BatchSize: 10, BatchDelay: 1, InitialDelay: 0})
+		ac := mmap.NewAsyncCompactor(va, mmap.ArenaCompactionConfig{Enabled: true, Threshold: 0.01, BatchSize: compactBatch, BatchDelay: 1, InitialDelay: 0})
 		ac.SetNodeUpdater(&updater{})
 		return ac
 	}
@@ -627,6 +633,10 @@ func runArena(seq []aop) (problem string) {
 			va.LoadState(st)
 			ac = newCompactor()
 		}
+		if arenaDebug {
+			st := va.GetState()
+			fmt.Printf("DEBUG after %s: table=%v free=%v next=%d\n", o, st.SlotTable, st.FreeSlots, st.NextPhysSlot)
+		}
 		if p := check(i, o); p != "" {
 			va.Close()
 			return p
@@ -638,6 +648,13 @@ func runArena(seq []aop) (problem string) {
 
 func arenaPart(c *vk.Ctx) {
 	ops := arenaOps()
+	if os.Getenv("VERIF_C18_DEBUG") != "" {
+		seq := []aop{{"alloc", 0}, {"alloc", 1}, {"alloc", 2}, {"alloc", 3}, {"alloc", 4}, {"alloc", 5}, {"free", 0}, {"compact", 0}, {"alloc", 6}, {"alloc", 7}, {"alloc", 8}, {"alloc", 9}}
+		arenaDebug = true
+		fmt.Println("DEBUG result:", runArena(seq))
+		arenaDebug = false
+		return
+	}
 	depth := 4
 	if c.Thorough() {
 		depth = 5
@@ -645,9 +662,24 @@ func arenaPart(c *vk.Ctx) {
 	var n int64
 	// every sequence is also run from two non-initial states (two / four ids allocated, the
 	// second spanning two chunks): the interesting transitions need a populated arena first
-	prefixes := [][]aop{nil, {{"alloc", 0}, {"alloc", 1}}, {{"alloc", 0}, {"alloc", 1}, {"alloc", 2}, {"alloc", 3}}}
-	for _, prefix := range prefixes {
-		for d := 1; d <= depth; d++ {
+	type family struct {
+		prefix []aop
+		ops    []aop
+		depth  int
+	}
+	var fams []family
+	// a compaction that finds fewer free slots than the vectors it wants to move (one hole in the
+	// first chunk, three vectors in the second), then allocations beyond what the free list holds,
+	// over an alphabet of its own (fresh ids)
+	late := []aop{{"alloc", 1}, {"alloc", 6}, {"alloc", 7}, {"alloc", 8}, {"free", 0}, {"free", 4}, {"compact", 0}, {"reopen", 0}}
+	for _, hole := range []uint32{1, 0, 2} {
+		fams = append(fams, family{[]aop{{"alloc", 0}, {"alloc", 1}, {"alloc", 2}, {"alloc", 3}, {"alloc", 4}, {"alloc", 5}, {"free", hole}, {"compact", 0}}, late, 3})
+	}
+	// (the small families above run first; these are the ones a deadline may cut)
+	fams = append(fams, family{nil, ops, depth}, family{[]aop{{"alloc", 0}, {"alloc", 1}}, ops, depth}, family{[]aop{{"alloc", 0}, {"alloc", 1}, {"alloc", 2}, {"alloc", 3}}, ops, depth})
+	for _, fam := range fams {
+		prefix, ops, maxD := fam.prefix, fam.ops, fam.depth
+		for d := 1; d <= maxD; d++ {
 			idx := make([]int, d)
 			for {
 				if c.Mine() {
